@@ -355,3 +355,28 @@ def py_version():
 def require_311():
     if sys.version_info[:2] != (3, 11):
         raise Machinery('the reference oracle must be CPython 3.11, found %s' % sys.version)
+
+
+def engine_to_result(prop, d, op):
+    """Convert the JSON report of a Rust engine into a Result (fails become Fail objects)."""
+    r = Result()
+    r.evaluations = d['evaluations']
+    r.nontrivial = d['nontrivial']
+    r.states = d.get('states') or d['evaluations']
+    r.transitions = d.get('transitions') or d['evaluations']
+    r.validated = d['evaluations']
+    r.by_bound.update(d.get('by_bound', {}))
+    r.outcomes.update(d.get('outcomes', {}))
+    r.samples = list(d.get('samples', []))
+    shown = collections.Counter()
+    for sig, inp, obs, ref in d['fails']:
+        shown[sig] += 1
+        r.fails.append(Fail(prop, sig, op, inp, obs, ref))
+    for sig, n in d.get('fail_counts', {}).items():
+        if n > shown[sig]:
+            r.info['failing cases beyond the per-signature report cap: ' + sig] += n - shown[sig]
+    if not r.outcomes:
+        r.outcomes['held'] = r.evaluations - sum(d.get('fail_counts', {}).values())
+        for sig, n in d.get('fail_counts', {}).items():
+            r.outcomes['FAIL ' + sig] = n
+    return r
